@@ -118,6 +118,7 @@ class Analyzer(ExprMixin):
         self.cur_driver = None
         self.cur_proc_vars = None
         self.in_function = False
+        self._proc_has_sens = True
 
     # --- findings
     def finding(self, rule, msg, line=0):
@@ -426,6 +427,12 @@ class Analyzer(ExprMixin):
             self.case(s.expr, [(ch, body) for ch, body in s.alts], s.line, stmt=True)
         elif isinstance(s, P.Null):
             self.emit("pass")
+        elif isinstance(s, P.Wait):
+            if self.in_function or self.in_process is None:
+                self.err("wait statement outside a process")
+            if self._proc_has_sens:
+                self.err("wait statement in a process with a sensitivity list", "syntax")
+            self.emit("pass")
         elif isinstance(s, P.Assert):
             _, c = self.resolve(s.cond, BOOL, "assert condition")
             msg = "Assertion violation."
@@ -535,6 +542,7 @@ class Analyzer(ExprMixin):
     def process(self, p):
         label = p.label or f"_proc{len(self.b.procs)}"
         self.in_process = label
+        self._proc_has_sens = p.sens is not None
         idx, pyname = self.begin_proc(label, p.line)
         ps = Scope(self.scope, "process")
         saved_scope = self.scope
@@ -545,8 +553,12 @@ class Analyzer(ExprMixin):
             self.emit(f"PS.update({tuple(self.cur_proc_vars)!r})")
         sens_sids = []
         sens_entries = []
-        if p.sens is None:
-            self.finding("sensitivity", f"process {label} has no sensitivity list (and no wait statements are supported)", p.line)
+        runs_once = p.sens is None and bool(p.body) and isinstance(p.body[-1], P.Wait) and \
+            not any(isinstance(x, P.Wait) for x in p.body[:-1])
+        if p.sens is None and not runs_once:
+            self.finding("sensitivity", f"process {label} has neither a sensitivity list nor a final `wait;`", p.line)
+        elif p.sens is None:
+            pass  # executes once during initialisation, then suspends forever
         elif p.sens == "all":
             pass
         else:
